@@ -71,6 +71,8 @@ type Violation struct {
 	Reason     string
 	Replay     string
 	NoInput    bool
+	Unit       *Unit
+	ReplayInfo *ReplayResult
 }
 
 func Report(p *Program, units []*Unit, o CheckOpts, work string) int {
@@ -116,7 +118,7 @@ func Report(p *Program, units []*Unit, o CheckOpts, work string) int {
 					samples = append(samples, map[string]interface{}{"obligation": ob.Name, "kind": ob.Kind, "result": ob.Result, "solver": ob.Solver, "seconds": round3(ob.Seconds), "smt_bytes": len(ob.SMT(false))})
 				}
 			} else {
-				viol = append(viol, Violation{Obligation: ob.Name, Reason: "solver: " + ob.Result + " " + ob.Output, NoInput: true})
+				viol = append(viol, Violation{Obligation: ob.Name, Reason: "solver: " + ob.Result + " " + ob.Output, NoInput: true, Unit: u})
 			}
 			if o.Verbose {
 				fmt.Printf("  %-8s %-7s %6.2fs %s\n", ob.Result, ob.Solver, ob.Seconds, ob.Name)
@@ -174,6 +176,29 @@ func Report(p *Program, units []*Unit, o CheckOpts, work string) int {
 	for i := 0; i < len(slows) && i < 5; i++ {
 		slowest = append(slowest, map[string]interface{}{"obligation": slows[i].name, "seconds": round3(slows[i].s)})
 	}
+	// counterexample search + replay on the real code, once per failing function unit
+	replays := map[*Unit]*ReplayResult{}
+	nReplayed, nConfirmed := 0, 0
+	for i := range viol {
+		v := &viol[i]
+		if v.Unit == nil || v.Unit.Contract == nil || v.Unit.Err != "" || os.Getenv("GOCV_NO_REPLAY") != "" {
+			continue
+		}
+		rr, done := replays[v.Unit]
+		if !done {
+			r := SearchAndReplay(p, o, v.Unit.Contract, v.Obligation)
+			rr = &r
+			replays[v.Unit] = rr
+			nReplayed++
+			if rr.Status == "confirmed" {
+				nConfirmed++
+			}
+		}
+		v.ReplayInfo = rr
+		if rr.Status == "confirmed" {
+			v.NoInput = false
+		}
+	}
 	// violations -> replay files
 	replayDir := filepath.Join(o.Verif, "replay")
 	os.MkdirAll(replayDir, 0o755)
@@ -181,9 +206,22 @@ func Report(p *Program, units []*Unit, o CheckOpts, work string) int {
 		v := &viol[i]
 		fn := filepath.Join(replayDir, sanitize(v.Obligation)+".txt")
 		body := fmt.Sprintf("property: %s\nobligation: %s\nreason: %s\n", o.Prop, v.Obligation, v.Reason)
+		if rr := v.ReplayInfo; rr != nil {
+			body += fmt.Sprintf("replay: %s\nreplay-detail: %s\nreplay-pkg: %s\nmodel-from-search-goal: %s\n", rr.Status, rr.Detail, rr.PkgDir, rr.Against)
+			for k, val := range rr.Model {
+				body += fmt.Sprintf("  input %s = %s\n", k, val)
+			}
+			if rr.Output != "" {
+				body += "--- output of the replay on the real code ---\n" + rr.Output + "\n"
+			}
+			if rr.Test != "" {
+				body += "--- generated replay test (run with: go test -overlay, see tools/replay.sh) ---\n" + rr.Test + "\n"
+			}
+		}
 		os.WriteFile(fn, []byte(body), 0o644)
 		v.Replay = fn
 	}
+	_ = nReplayed
 	for _, v := range viol {
 		suffix := ""
 		if v.NoInput {
@@ -210,6 +248,7 @@ func Report(p *Program, units []*Unit, o CheckOpts, work string) int {
 			"trusted_base":             append([]string{"gocv VC generator (this repository, /verif/engine)", "z3 5.1.0 (z3-new), cvc5 1.0, z3 4.8.12", "go/types type checker"}, LibModels...),
 			"functions_under_contract": funcs, "by_solver": bs, "slowest": slowest, "samples": samples,
 			"vacuity_cover_queries": covers, "known_findings_seen": kfSeen,
+			"counterexamples_replayed": nReplayed, "counterexamples_confirmed_on_real_code": nConfirmed,
 		},
 		"assumptions": assume, "wall_s": round3(time.Since(o.Start).Seconds()), "violations": len(viol),
 	}
@@ -290,4 +329,39 @@ func execCommand(dir, name string, args ...string) *exec.Cmd {
 	cmd.Dir = dir
 	cmd.Env = append(os.Environ(), "GOFLAGS=-mod=mod", "GOPROXY=off", "GOSUMDB=off", "GOTOOLCHAIN=local")
 	return cmd
+}
+
+// RunReplayFile re-runs the generated test stored in a replay file against the current /repo.
+func RunReplayFile(repo, verif, path string) int {
+	data, err := os.ReadFile(path)
+	if err != nil {
+		fmt.Println(err)
+		return 2
+	}
+	text := string(data)
+	fmt.Print(text[:min(len(text), strings.Index(text+"--- generated", "--- generated"))])
+	k := strings.Index(text, "--- generated replay test")
+	if k < 0 {
+		fmt.Println("(no generated replay test in this file: the obligation is reported without a failing input)")
+		return 0
+	}
+	test := text[k:]
+	test = test[strings.Index(test, "\n")+1:]
+	pkg := ""
+	for _, l := range strings.Split(text, "\n") {
+		if strings.HasPrefix(l, "replay-pkg: ") {
+			pkg = strings.TrimSpace(strings.TrimPrefix(l, "replay-pkg: "))
+		}
+	}
+	work := filepath.Join(verif, "work", "replay")
+	os.MkdirAll(work, 0o755)
+	tf := filepath.Join(work, "zz_gocv_replay_test.go")
+	os.WriteFile(tf, []byte(test), 0o644)
+	failed, out := RunOverlayTest(repo, verif, pkg, tf, "TestGocvReplay", "gocv_replay")
+	fmt.Println("--- re-run on the current tree ---")
+	fmt.Println(out)
+	if failed {
+		return 1
+	}
+	return 0
 }
